@@ -754,4 +754,100 @@ func userErrorRule(c *Ctx, r *Report) {
 		})
 	}
 	_ = n
+	// the same through errors.As: `var e Error; if errors.As(err, &e) { return e }`
+	for _, fn := range c.SrcFuncs() {
+		if fn.Pkg != c.SSA[""] {
+			continue
+		}
+		for _, ci := range CallsIn(fn, false) {
+			g := ci.Common().StaticCallee()
+			if g == nil || g.String() != "errors.As" || len(ci.Common().Args) != 2 {
+				continue
+			}
+			var target *ssa.Alloc
+			for _, s := range append(Sources(ci.Common().Args[1]), ci.Common().Args[1]) {
+				if a, ok := s.(*ssa.Alloc); ok && types.Identical(a.Type().(*types.Pointer).Elem(), errT) {
+					target = a
+				}
+			}
+			if target == nil {
+				continue
+			}
+			user := userProvenance(c, ci.Common().Args[0])
+			returned := false
+			for _, ret := range Returns(fn) {
+				for i := range ret.Results {
+					for _, s := range append(Sources(RetVal(ret, i)), RetVal(ret, i)) {
+						if l, ok := s.(*ssa.UnOp); ok && l.Op == token.MUL && l.X == ssa.Value(target) {
+							returned = true
+						}
+					}
+				}
+			}
+			bad := returned && len(user) > 0
+			why := "the operand comes from repository code only"
+			if !returned {
+				why = "the extracted value is inspected, not returned"
+			}
+			r.Check(!bad, "R14e", c.FnName(fn), "errors.As to Error", c.Pos(ci.Pos()), why,
+				"an error produced by user code ("+strings.Join(user, ", ")+") is extracted with errors.As and returned as the ucfg.Error result without being wrapped: it carries a path relative to another root (a Config built inside the user's Unpack) and not the source of the offending setting")
+		}
+	}
+}
+
+// userProvenance: the calls into user code (interfaces the repository does not implement alone, dynamic calls,
+// reflect.Value.Call) that v can come from.
+func userProvenance(c *Ctx, v0 ssa.Value) []string {
+	var user []string
+	seen := map[ssa.Value]bool{}
+	var walk func(v ssa.Value, d int)
+	walk = func(v ssa.Value, d int) {
+		if v == nil || seen[v] || d > 12 {
+			return
+		}
+		seen[v] = true
+		switch x := v.(type) {
+		case *ssa.Phi:
+			for _, e := range x.Edges {
+				walk(e, d+1)
+			}
+		case *ssa.Extract:
+			walk(x.Tuple, d+1)
+		case *ssa.TypeAssert:
+			walk(x.X, d+1)
+		case *ssa.ChangeInterface:
+			walk(x.X, d+1)
+		case *ssa.MakeInterface:
+			walk(x.X, d+1)
+		case *ssa.UnOp:
+			if x.Op == token.MUL {
+				if vals, ok := localStores(x.X); ok {
+					for _, s := range vals {
+						walk(s, d+1)
+					}
+				}
+			}
+		case *ssa.Call:
+			cc := x.Call
+			switch {
+			case cc.IsInvoke():
+				callees := c.Callees(x)
+				inRepo := 0
+				for _, g := range callees {
+					if c.InRepo(g) {
+						inRepo++
+					}
+				}
+				if inRepo == 0 || inRepo < len(callees) {
+					user = append(user, "invoke "+cc.Method.Name()+" on "+typeStr(cc.Value.Type()))
+				}
+			case cc.StaticCallee() == nil:
+				user = append(user, "dynamic call")
+			case cc.StaticCallee().String() == "(reflect.Value).Call":
+				user = append(user, "reflect.Value.Call")
+			}
+		}
+	}
+	walk(v0, 0)
+	return user
 }
